@@ -36,6 +36,9 @@ type fcase struct {
 	NoLen    bool   // HTTP: stream without Content-Length
 	Huge     int    // HTTP: append this many padding bytes inside the body (string value) -> beyond the limit
 	MustFail bool   // the reply cannot be accepted legitimately
+	Burst    int    // udpburst: number of announces (distinct info-hashes) held by the tracker and answered in ONE burst
+	Dup      int    // udpburst: every reply is sent 1+Dup times
+	Shuffle  bool   // udpburst: replies are sent in another order than the requests arrived
 	Mangle   string // UDP: dup | wrongtx-first | wrongtx-only | short | connect-short | connect-wrongaction | connect-wrongtx | connect-dup
 }
 
@@ -155,6 +158,15 @@ func fuzzCases(seed int64, nrand int) []fcase {
 	u("connect-wrongtx", good, "connect-wrongtx", true)
 	u("connect-dup", good, "connect-dup", false)
 	u("connect-error", good, "connect-error", true)
+	// several announces sharing one UDP socket are answered back-to-back, each reply with content specific to its info-hash
+	for _, n := range []int{2, 3, 4, 8, 16, 32} {
+		for _, d := range []int{0, 2} {
+			cs = append(cs, fcase{Name: fmt.Sprintf("burst-n%d-dup%d", n, d), TP: "udpburst", Burst: n, Dup: d, Shuffle: n%3 == 0})
+		}
+	}
+	for i := 0; i < nrand/20; i++ {
+		cs = append(cs, fcase{Name: fmt.Sprintf("burst-rand%d", i), TP: "udpburst", Burst: 2 + rng.Intn(30), Dup: rng.Intn(4), Shuffle: rng.Intn(2) == 0})
+	}
 	for i := 0; i < nrand; i++ {
 		b := append([]byte{}, good...)
 		for m := 0; m < 1+rng.Intn(3); m++ {
@@ -186,6 +198,8 @@ type fres struct {
 	Port0  int    `json:"port0"`
 	BadTx  bool   `json:"badtx"`
 	Over   bool   `json:"over"`
+	Mix    int    `json:"mix"`
+	Lost   int    `json:"lost"`
 	Sent   int64  `json:"sent"`
 	Err    string `json:"err"`
 }
@@ -272,6 +286,9 @@ func runCase(tm *trackermanager.TrackerManager, i int, c fcase) fres {
 		classify(resp, &r)
 		return r
 	}
+	if c.TP == "udpburst" {
+		return runBurst(tm, i, c)
+	}
 	// UDP: a fresh scripted tracker (fresh destination => fresh connect) per case
 	u, err := vh.StartUDPTracker(nil, "fz", func(vh.AnnReq) vh.AnnReply {
 		return vh.AnnReply{RawBody: append([]byte{}, c.Body...)} // vh fills the transaction id IN PLACE: never hand it a shared slice
@@ -332,6 +349,139 @@ func runCase(tm *trackermanager.TrackerManager, i int, c fcase) fres {
 	r.Out = "ok"
 	classify(resp, &r)
 	r.BadTx = resp.Interval == 111*time.Second
+	return r
+}
+
+// what the burst tracker answers for an info-hash (the first byte identifies the announce)
+func burstReply(b byte) (interval, leechers, seeders uint32, peers []byte) {
+	interval, leechers, seeders = 1000+uint32(b), 2000+uint32(b), 3000+uint32(b)
+	for j := 0; j < 1+int(b)%4; j++ {
+		peers = append(peers, 10, b, byte(j), 1, 0x1a, b)
+	}
+	return
+}
+
+func runBurst(tm *trackermanager.TrackerManager, i int, c fcase) fres {
+	r := fres{I: i}
+	conn, err := net.ListenUDP("udp4", &net.UDPAddr{IP: net.ParseIP("127.0.0.1")})
+	if err != nil {
+		r.Out, r.Err = "mach", err.Error()
+		return r
+	}
+	defer conn.Close()
+	type held struct {
+		to   *net.UDPAddr
+		txid []byte
+		b    byte
+	}
+	go func() { // the tracker: connects are answered at once, announces are held until c.Burst of them are there
+		var hs []held
+		buf := make([]byte, 2048)
+		wave := 0
+		for {
+			n, from, err := conn.ReadFromUDP(buf)
+			if err != nil {
+				return
+			}
+			if n < 16 {
+				continue
+			}
+			switch binary.BigEndian.Uint32(buf[8:12]) {
+			case 0:
+				out := append(append(be32(0), buf[12:16]...), 0, 0, 0, 0, 0, 0, 0x12, 0x34)
+				conn.WriteToUDP(out, from)
+			case 1:
+				if n < 98 {
+					continue
+				}
+				hs = append(hs, held{from, append([]byte{}, buf[12:16]...), buf[16]})
+				need := c.Burst
+				if wave > 0 {
+					need = 1 // second wave: answered one by one, each with its duplicates right behind it
+				}
+				if len(hs) < need {
+					continue
+				}
+				order := hs
+				if c.Shuffle {
+					order = nil
+					for j := len(hs) - 1; j >= 0; j-- {
+						order = append(order, hs[j])
+					}
+				}
+				sendAll := func(times int) {
+					for d := 0; d < times; d++ {
+						for _, h := range order {
+							iv, le, se, peers := burstReply(h.b)
+							out := append(be32(1), h.txid...)
+							out = append(append(append(out, be32(iv)...), be32(le)...), be32(se)...)
+							conn.WriteToUDP(append(out, peers...), h.to)
+						}
+					}
+				}
+				sendAll(1 + c.Dup)
+				// UDP may drop datagrams when a socket buffer overflows (seen on a loaded machine): the tracker repeats its
+				// answers a few times, so that a "lost" verdict means the client never accepted ANY copy of its reply
+				go func() {
+					for _, ms := range []int{400, 800, 1500, 2500} {
+						time.Sleep(time.Duration(ms) * time.Millisecond)
+						sendAll(1)
+					}
+				}()
+				if len(hs) == c.Burst && wave == 0 {
+					wave = 1
+				}
+				hs = nil
+			}
+		}
+	}()
+	trk, err := tm.Get("udp://"+conn.LocalAddr().String()+"/announce", 3*time.Second, "c16-fuzz", httpLimit)
+	if err != nil {
+		r.Out, r.Err = "mach", err.Error()
+		return r
+	}
+	var mu sync.Mutex
+	one := func(b byte) {
+		var ih, pid [20]byte
+		copy(ih[:], "burst-infohash-00000")
+		copy(pid[:], "-RN0000-burst0000000")
+		ih[0] = b
+		ctx, cancel := context.WithTimeout(context.Background(), 8*time.Second)
+		resp, err := trk.Announce(ctx, tracker.AnnounceRequest{Torrent: tracker.Torrent{InfoHash: ih, PeerID: pid, Port: 6881, BytesLeft: 100}, NumWant: 50})
+		cancel()
+		mu.Lock()
+		defer mu.Unlock()
+		if err != nil {
+			r.Lost++
+			r.Err = trunc(err.Error())
+			return
+		}
+		iv, le, se, peers := burstReply(b)
+		okc := resp.Interval == time.Duration(iv)*time.Second && resp.Leechers == int32(le) && resp.Seeders == int32(se) && len(resp.Peers)*6 == len(peers)
+		for j, p := range resp.Peers {
+			if !okc {
+				break
+			}
+			ip4 := p.IP.To4()
+			okc = ip4 != nil && ip4[0] == peers[j*6] && ip4[1] == peers[j*6+1] && ip4[2] == peers[j*6+2] && p.Port == int(peers[j*6+4])<<8|int(peers[j*6+5])
+		}
+		r.NPeers += len(resp.Peers)
+		if !okc {
+			r.Mix++
+		}
+	}
+	for wave := 0; wave < 2; wave++ {
+		var wg sync.WaitGroup
+		for j := 0; j < c.Burst; j++ {
+			wg.Add(1)
+			go func(b byte) { defer wg.Done(); one(b) }(byte(1 + j + wave*100))
+		}
+		wg.Wait()
+	}
+	r.Out = "ok"
+	if r.Lost > 0 {
+		r.Out = "err"
+	}
 	return r
 }
 
@@ -459,7 +609,8 @@ func fuzzParent(seed int64, nrand int, root string) *annh.Sc {
 			model = "dict"
 		}
 		sc.Line("fz", map[string]any{"tp": c.TP, "case": c.Name, "model": model, "out": r.Out, "npeers": r.NPeers, "nilip": r.NilIP, "ip6": r.IP6, "port0": r.Port0,
-			"badtx": r.BadTx, "over": r.Over, "sent": r.Sent, "mustfail": c.MustFail, "err": r.Err, "now": i})
+			"badtx": r.BadTx, "over": r.Over, "sent": r.Sent, "mustfail": c.MustFail, "err": r.Err, "now": i,
+			"mix": r.Mix > 0, "lost": r.Lost > 0, "nmix": r.Mix, "nlost": r.Lost, "burst": c.Burst})
 	}
 	return sc
 }
